@@ -67,9 +67,17 @@ _bb("C08", "property-based testing (rapid) over generated test programs, skip se
 _bb("C11", "property-based testing (rapid) over option sets, call shapes, packages and subtest names, each case executed three times (normal, foreign cwd, -trimpath); oracle = exact set of created files and entry ids equals the statement's path formula",
     "Generated-input search over Dir/Filename/Ext/API x call shape (0-100 extra frames, non-test files, other package) x package depth x subtest names with '%', '/', spaces. Sampled; -trimpath only for cwd = package dir.")
 
+TEXT["C06"] = dict(
+    engine="sched+race",
+    technique="schedule exploration on a cooperative scheduler (package snaps rebuilt at check time with a yield before every statement and cooperative mutexes): rapid-generated scenarios x schedules plus exhaustive enumeration of all schedules with <= 2 preemptions of fixed two-task scenarios, serialisability oracle; race-detector stress for the data-race clause",
+    level_text="Generated concurrent scenarios (create/match/mismatch/update mixes over one shared file) under generated schedules with up to 3 preemptions, and every schedule with at most two preemptions (including which task starts) for 1 (quick) / 4 (thorough) fixed scenarios; each final file and every call outcome is compared with the serial prediction. A -race build runs generated goroutine mixes of Match*, Skip* and one shared Config. Bounded exploration, not a proof.",
+    design_ref="§5.2, §5.3, §6 C06",
+    level_note="Trusted base: the Go toolchain incl. the race detector, rapid, the source rewriter (text-offset insertion of yields, line numbers preserved) and the 150-line scheduler/lock shim. File operations between two yields are atomic; kernel-level partial writes are out of reach. /repo is not modified: rewritten sources are supplied through -overlay.")
+
 NOT_APPLICABLE = {}
 
 ENGINES = [
+    dict(name="sched", path="/verif/sched", serves_properties=["C06"], kind_free_text="controlled scheduler: go/parser based rewriter inserting yields, cooperative sync shim, schedule-driven runner"),
     dict(name="bb", path="/verif/bb", serves_properties=["C05", "C08", "C11"], kind_free_text="black-box rapid properties driving a compiled, data-driven test program (real testing runner, TestMain, environment) as sub-processes"),
     dict(name="race", path="/verif/wb", serves_properties=["C06", "C12"], kind_free_text="the white-box binary built with -race; generated goroutine mixes"),
     dict(name="wb", path="/verif/wb", serves_properties=["C01","C02","C03","C04","C07","C09","C10","C12","C13","C14","C15","C16","C17","C18","C19","C20"], kind_free_text="white-box rapid properties compiled into package snaps via go test -overlay"),
